@@ -25,6 +25,59 @@ def kind_of(col):
     return {MixedColumn: 'KMixed', FloatColumn: 'KFloat', IntColumn: 'KInt'}.get(type(col), 'K?')
 
 
+# Behaviour of the UNCHANGED tree that a strict reading of the property text does not cover (reported to the
+# coordinator, not decided yet).  While False, the cases below are kept out of the default stream / are not judged
+# by the property oracle:
+#   * ops.weight(col) raises TypeError when the DataMatrix also holds a SeriesColumn (`dm2[colname] = type(_col)`
+#     needs a depth) although "column types preserved" is promised;
+#   * ops.replace(MixedColumn, {nan: v}) never matches a NaN cell (it does in Float columns);
+#   * ops.replace(FloatColumn / IntColumn, {'text': v}) raises TypeError (np.isnan of a non-number) instead of
+#     returning an unchanged copy;
+#   * ops.z(MixedColumn holding -inf) is all NaN (`_nanorinf` drops +inf but not -inf).
+INCLUDE_PENDING_FINDINGS = False
+
+U53 = 2.0 ** -53            # unit roundoff of binary64
+Z_TOL_FLOOR = 1e-9
+
+
+def _gamma(k):
+    return k * U53 / (1 - k * U53)
+
+
+def z_tolerance(nums, ncells):
+    """Rigorous a-priori bounds for |mean(z)| and |std(z) - 1| of the two-pass z transform in binary64.
+
+    nums: the finite numeric cells as floats (n >= 2, not all equal); ncells >= n: number of cells that enter the
+    floating-point sums.  With u = 2^-53, g_k = k*u/(1-k*u), M = max|x_i|, s = exact sample standard deviation,
+    kappa = M/s (the conditioning of the problem: how large the values are relative to their spread):
+      * the computed mean m^ = fl(fl(sum x_i)/n) has |m^ - mean| <= g_N * M for ANY summation order (recursive,
+        pairwise, compensated), N = ncells;
+      * s^ (sum of fl((x_i - m^)^2), /(n-1), sqrt; <= N+6 roundings under the root, pow() within 1 ulp) satisfies
+        s^^2 = (s^2 + n*dm^2/(n-1)) * (1+T), |T| <= g_(N+6), hence H := n*(g_N*kappa)^2/(n-1) bounds the relative
+        excess of the variance caused by the error dm of the mean -- second order in kappa: this is what the
+        two-pass formula buys, the single-pass formula sum(x^2) - sum(x)^2/n has a FIRST-order term u*kappa^2;
+      * z_i = fl(fl(x_i - m^)/s^) = (x_i - m^)(1+p_i)/s^, |p_i| <= g_2.
+    From these (Cauchy-Schwarz for the mean; the standard deviation is a seminorm, shift invariant):
+      |mean(z)|    <= (g_N*kappa + g_2*(1+H/2)) * (1+g_(N+6))
+      |std(z) - 1| <= g_(N+6) + (H + g_(N+6) + H*g_(N+6))/2 + g_2*(1+H/2)*(1+g_(N+6))
+    8u is added for the harness' own measurement (fsum based) and a factor 1+2^-40 for evaluating the bound in
+    floating point.  The first bound is unavoidable for any implementation returning doubles (the mean itself
+    is only known to u*M).  Assumes no overflow / underflow (|x| < 2^60, spreads > 2^-60)."""
+    n = len(nums)
+    fx = [Fraction(x) for x in nums]
+    mean = sum(fx) / n
+    var = sum((x - mean) ** 2 for x in fx) / (n - 1)
+    sigma = math.sqrt(var)
+    kappa = max(abs(x) for x in nums) / sigma
+    g = _gamma(ncells + 6)
+    gk = _gamma(ncells) * kappa
+    h = n * gk * gk / (n - 1)
+    slack = 1 + 2.0 ** -40
+    b_mean = ((gk + _gamma(2) * (1 + h / 2)) * (1 + g) + 8 * U53) * slack
+    b_std = (g + (h + g + h * g) / 2 + _gamma(2) * (1 + h / 2) * (1 + g) + 8 * U53) * slack
+    return kappa, max(Z_TOL_FLOOR, b_mean), max(Z_TOL_FLOOR, b_std)
+
+
 class Foreign(pyobs.Obj):
     """an object that is neither a column nor a name"""
 
@@ -113,19 +166,25 @@ class C15:
             "'', 0, text, None, nan, 2.5, non-Mixed columns and the empty design for the model; replace: random mappings "
             'over the three column types, disjoint (oracle + model) and chained (model only), NaN keys, malformed keys / '
             'values; keep_only / dm[...]: every subset of 1-4 columns by name, by object and mixed, through keep_only(*), '
-            'keep_only([..]) and dm[..], with unknown names, foreign columns, aliases and non-column arguments; also by object after the name of the column was looked up (col.name, keep_only / dm[...] by object) and the column was then renamed, re-added under a new name or swapped names with another column (judged by the current name); z: Float '
-            'and Mixed columns with >= 2 distinct finite values and nan/inf/text/None cells (tolerance 1e-9 on the Python '
-            'side), plus families with a rational standard deviation compared exactly with the model. Every table is '
+            'keep_only([..]) and dm[..], with unknown names, foreign columns, aliases and non-column arguments (column objects are '
+            'handed to the model as identities, it resolves their names itself); also by object after the name of the column was looked up (col.name, keep_only / dm[...] by object) and the column was then renamed, re-added under a new name or swapped names with another column (judged by the current name); z: Float, '
+            'Mixed and Int columns with >= 2 distinct finite values and nan/inf/text/None cells in between: small everyday values, '
+            'and values with a large offset and a small spread (1e8+k, ms timestamps ~1.7e12, 123456789.25-style floats, '
+            'around +-2^40 and +-2^52, mixed signs, one outlier next to a tight cluster; max|x|/std up to ~1e15), judged '
+            'on the Python side with the tolerance max(1e-9, a-priori bound of the two-pass formula for that conditioning); '
+            'plus families with a rational standard deviation (centre up to 2^50) compared exactly with the model. Every table is '
             'built with columns inserted in non-alphabetical order and in one of three row orders (as created / permuted '
             '/ selected from a larger table). non-trivial = the result differs from the source or an exception is raised; '
             'distinct by (operation, source table, parameters)')
     trusted_base = [
         'Coq 8.16.1 kernel (coqc; vm_compute for evaluating cases; no native_compute)',
         'translator /verif/translate/gen_opsmisc.py (+ py2coq.py): guards, index and repeat-count arithmetic of weight, '
-        '_fullfact, fullfactorial, replace, keep_only, BaseColumn.name/mean/std, z -> Gen/KOpsMisc.v; the loop skeletons '
-        'around them are pinned (any structural change fails the translation)',
-        'hand-written skeletons in Model/OpsMisc.v (loop structure, NumPy stores of replace on numeric columns, list '
-        'repetition / concatenation, H[:, i] = rng), tied by the correspondence only',
+        '_fullfact, fullfactorial, replace (cell test of the MixedColumn branch, isnan / == choice of the NumPy branch), '
+        'keep_only, the dispatch chain of _colname, BaseColumn.name (comprehension filter, no-name and single-name tests) '
+        '/mean/std, z -> Gen/KOpsMisc.v; the loop skeletons around them are pinned (any structural change fails the translation)',
+        'hand-written skeletons in Model/OpsMisc.v (loop structure, element-wise reading of np.isnan(array) / array == x, '
+        'NumPy stores of replace on numeric columns, list repetition / concatenation, H[:, i] = rng), tied by the correspondence only',
+        'object identities of columns (id(obj), the (name, object) list of the owning DataMatrix) as read by harness/c15.py',
         'harness/c15.py (table builder, dumper through dm.columns / iteration, outcome classification), harness/pyobs.py, '
         'Run/SC15.v, Run/RC15.v comparators',
         'modelled, not verified: Python ==, list * int, range, enumerate, dict order, NumPy np.prod / zeros / column assignment '
@@ -135,9 +194,21 @@ class C15:
         'cells are plain int/float/str/None in the normal form of their column type (C05); Int cells and weights are small '
         '(no int64 / float53 overflow)',
         'the ignore value of fullfactorial is itself a normal-form cell value (so that re-storing it does not change it)',
-        'z: mean 0 and standard deviation 1 are compared with tolerance 1e-9 on the Python side (binary64 rounding is not '
-        'modelled); the theorems are over exact rationals with s*s = variance as a hypothesis; element-wise column '
-        'arithmetic is C13',
+        'z: mean 0 and standard deviation 1 are compared on the Python side (binary64 rounding is not modelled) with the '
+        'tolerance max(1e-9, B): B is the a-priori rounding bound of the two-pass formula (mean, then sum of squared '
+        'deviations) in binary64 for the conditioning kappa = max|x|/std of the input, u = 2^-53, g_k = k*u/(1-k*u), '
+        'N cells, n numeric cells, H = n*(g_N*kappa)^2/(n-1): |mean z| <= (g_N*kappa + g_2*(1+H/2))*(1+g_(N+6)) + 8u and '
+        '|std z - 1| <= g_(N+6) + (H + g_(N+6) + H*g_(N+6))/2 + g_2*(1+H/2)*(1+g_(N+6)) + 8u (derivation in '
+        'c15.z_tolerance; valid for any summation order, pow() within 1 ulp, no overflow/underflow: |x| < 2^60). The mean '
+        'bound u*N*kappa is inherent to doubles (the mean of the input is only known to u*max|x|); the deviation of the '
+        'standard deviation is second order in u*kappa for a two-pass formula, whereas a single-pass sum-of-squares formula '
+        'loses u*kappa^2 -- that gap is what the large-offset families test. Inputs with tolerance >= 0.5 (unit spread near '
+        '2^52) are judged for shape, exceptions and monotonicity only. The theorems are over exact rationals with s*s = '
+        'variance as a hypothesis; element-wise column arithmetic is C13',
+        'ints in z inputs stay below 2^53 (float(int) exact)',
+        'pending findings (INCLUDE_PENDING_FINDINGS = False): weight with a SeriesColumn in the table, a NaN key on a '
+        'MixedColumn holding NaN (not judged by the oracle, model still compared), a non-number key on a numeric column '
+        '(model only, as before), -inf in a MixedColumn given to z (not generated)',
         'z of an IntColumn returns a FloatColumn (repaired defect: the scores used to be truncated to integers)',
         'replace on numeric columns: keys and values are numbers (other objects are outside the claim; the model still '
         'describes the exceptions NumPy raises for them)',
@@ -187,6 +258,32 @@ class C15:
         nontriv = not (isinstance(observed, dict) and observed.get('cols') == src_py['cols'])
         tags = ['weight:' + ('error' if 'raises' in observed else 'ok'), 'wkind:' + str(kind_of(dm[w]))]
         return self._finish(inp, 'weight', src_lit, src_py, dm, observed, pyfail, oracle, model, nontriv, tags)
+
+    def _run_weight_series(self, inp):
+        """pending finding: weight on a DataMatrix that also holds a SeriesColumn (judged Python-side only)"""
+        from datamatrix import DataMatrix, SeriesColumn, operations as ops
+        ws = inp['weights']
+        dm = DataMatrix(length=len(ws))
+        dm.w = ws
+        dm.s = SeriesColumn(depth=inp['depth'])
+        for i in range(len(ws)):
+            dm.s[i] = [i * 10 + j for j in range(inp['depth'])]
+        pyfail = None
+        try:
+            with warnings.catch_warnings():
+                warnings.simplefilter('ignore')
+                r = ops.weight(dm.w)
+            rows = [i for i, w in enumerate(ws) for _c in range(w)]
+            observed = {'w': list(r.w), 'series': [[float(x) for x in cell] for cell in r.s], 'type': type(r.s).__name__}
+            if type(r.s) is not type(dm.s) or list(r.w) != [ws[i] for i in rows] \
+                    or observed['series'] != [[float(i * 10 + j) for j in range(inp['depth'])] for i in rows]:
+                pyfail = 'weight with a SeriesColumn: rows / types not preserved: %r' % (observed,)
+        except Exception as e:          # noqa: BLE001
+            observed = {'raises': pyobs.exn_name(e), 'msg': str(e)[:200]}
+            pyfail = ('weight raised %s for valid weights %r because the DataMatrix also holds a SeriesColumn '
+                      '(column types are to be preserved)' % (pyobs.exn_name(e), ws))
+        return {'input': inp, 'observed': observed, 'pyfail': pyfail, 'oracle': 'false' if pyfail else 'true', 'model': 'true',
+                'nontrivial': True, 'sig': 'weight_series|%s' % _compact(inp), 'tags': ['weight', 'weight:pending-series']}
 
     def _run_fullfact(self, inp):
         from datamatrix import operations as ops
@@ -272,6 +369,22 @@ class C15:
         model = '(replace_agrees %s %s %s %s)' % (kd, ml, cl, obs)
         nontriv = observed.get('cells') != [pyobs.jsonable(x) for x in col]
         tags = ['replace:' + kd, 'replace:' + ('error' if 'raises' in observed else 'ok')] + inp.get('tags', [])
+        # pending findings (see INCLUDE_PENDING_FINDINGS): judged by the strict reading only when switched on
+        isnan = lambda x: isinstance(x, float) and x != x          # noqa: E731
+        nan_keys = [v for k, v in pairs if isnan(k)]
+        if kd == 'KMixed' and nan_keys and any(isnan(x) for x in col):
+            tags.append('replace:pending-nan-key-in-mixed')
+            if not INCLUDE_PENDING_FINDINGS:
+                oracle = 'true'          # the L0 reading "NaN == NaN is false in a MixedColumn" is the contested one
+            elif 'cells' in observed and any(isnan(x) for x in r):
+                pyfail = pyfail or ('a NaN key did not replace the NaN cells of a MixedColumn (it does in a FloatColumn): '
+                                    '%r -> %r' % (list(col), list(r)))
+        if kd != 'KMixed' and any(not isinstance(k, (int, float)) for k, _v in pairs):
+            tags.append('replace:pending-non-number-key')
+            if INCLUDE_PENDING_FINDINGS and 'raises' in observed \
+                    and all(isinstance(v, (int, float)) and not isinstance(v, bool) for _k, v in pairs):
+                pyfail = pyfail or ('replace on a %s with a key that is no number raised %s; no cell equals such a key, '
+                                    'an unchanged copy is expected' % (kd, observed['raises']))
         return self._finish(inp, 'replace', src_lit, src_py, dm, observed, pyfail, oracle, model, nontriv, tags)
 
     def _run_keep(self, inp):
@@ -326,6 +439,25 @@ class C15:
                 args.append(7)
                 margs.append('AOther')
                 resolvable = False
+        # the same arguments with column objects as identities: the model resolves them itself (BaseColumn.name
+        # over the columns of the object's own DataMatrix); small numbers stand for id(object)
+        idmap = {}
+
+        def oid(c):
+            return idmap.setdefault(id(c), len(idmap))
+
+        def owner_lit(d):
+            return L.lst('(%s, %s)' % (L.string(n), L.nat(oid(cc))) for n, cc in d.columns)
+        ids_lit = L.lst(L.nat(oid(cc)) for _n, cc in dm.columns)
+        oargs = []
+        for a, obj in zip(inp['args'], args):
+            if 'name' in a:
+                oargs.append('(OStr %s)' % L.string(a['name']))
+            elif 'obj' in a or 'foreign' in a:
+                oargs.append('(OColumn %s %s)' % (L.nat(oid(obj)), owner_lit(obj._datamatrix)))
+            else:
+                oargs.append('OOther')
+        own_only = all(('name' in a or 'obj' in a) for a in inp['args'])
         via = inp['via']
         if via == 'keep_only':
             thunk = lambda: ops.keep_only(dm, *args)
@@ -342,7 +474,12 @@ class C15:
         if r is not None and not p2 and hasattr(r, '_rowid') and [int(i) for i in r._rowid] != src_py['rowid']:
             pyfail = pyfail or 'keep_only changed the rows: %r -> %r' % (src_py['rowid'], [int(i) for i in r._rowid])
         oracle = '(keep_oracle %s %s %s)' % (src_lit, L.lst(L.string(n) for n in names), obs) if resolvable else 'true'
-        model = '(keep_agrees %s %s %s %s)' % (src_lit, L.boolean(via == 'keep_only_list'), L.lst(margs), obs)
+        if resolvable and own_only:
+            # by identity: exactly the columns named or passed as objects, whatever the objects are called now
+            oracle = '(%s && keep_id_oracle %s %s %s %s)' % (oracle, src_lit, ids_lit, L.lst(oargs), obs)
+        model = '(keep_agrees %s %s %s %s && keep_obj_agrees %s %s %s %s)' % (
+            src_lit, L.boolean(via == 'keep_only_list'), L.lst(margs), obs,
+            src_lit, L.boolean(via == 'keep_only_list'), L.lst(oargs), obs)
         if via.startswith('getitem') and not resolvable and any('other' in a for a in inp['args']):
             model = 'true'          # dm[(7, ...)] is row selection, not column selection
         nontriv = not (isinstance(observed, dict) and observed.get('cols') == src_py['cols'])
@@ -367,6 +504,8 @@ class C15:
             return None          # FloatColumn.mean/std use nanmean/nanstd: an infinite cell makes every score nan (noted)
         cl = L.lst(pyobs.val(x) or 'VNone' for x in src_cells)
         model = 'true'
+        kappa, tol_mean, tol_std = z_tolerance(
+            [float(x) for x in src_cells if isinstance(x, (int, float)) and math.isfinite(x)], len(src_cells))
         try:
             with warnings.catch_warnings():
                 warnings.simplefilter('ignore')
@@ -385,8 +524,10 @@ class C15:
                 sd = math.sqrt(math.fsum((x - mean) ** 2 for x in fin) / (len(fin) - 1))
                 observed['mean'] = mean
                 observed['std'] = sd
-                if not (abs(mean) <= 1e-9 and abs(sd - 1) <= 1e-9):
-                    pyfail = pyfail or 'z scores have mean %r and standard deviation %r (tolerance 1e-9)' % (mean, sd)
+                observed['kappa'], observed['tol_mean'], observed['tol_std'] = kappa, tol_mean, tol_std
+                if not (abs(mean) <= tol_mean and abs(sd - 1) <= tol_std):
+                    pyfail = pyfail or ('z scores have mean %r and standard deviation %r (tolerances %.3g / %.3g for '
+                                        'max|x|/std = %.3g)' % (mean, sd, tol_mean, tol_std, kappa))
                 # order must be preserved: z is increasing in the source value
                 order_src = sorted(range(len(nsrc)), key=lambda i: nsrc[i])
                 if any(fin[a] > fin[b] + 1e-12 for a, b in zip(order_src, order_src[1:])):
@@ -400,7 +541,10 @@ class C15:
             obs = '(OExn %s)' % pyobs.exn_name(e)
             observed = {'raises': pyobs.exn_name(e), 'msg': str(e)[:200]}
         oracle = '(z_oracle %s %s %s)' % (kd, cl, obs)
-        tags = ['z:' + kd, 'z:' + ('exact' if inp.get('exact_s') is not None else 'tolerance')]
+        tags = ['z:' + kd, 'z:' + ('exact' if inp.get('exact_s') is not None else 'tolerance'),
+                'z:max|x|/std~1e%d' % int(math.floor(math.log10(kappa) + 0.5)),
+                'z:' + ('ill-conditioned(tolerance>=0.5)' if max(tol_mean, tol_std) >= 0.5 else 'judged-numerically')]
+        tags += inp.get('tags', [])
         return self._finish(inp, 'z', src_lit, src_py, dm, observed, pyfail, oracle, model, True, tags)
 
     # ------------------------------------------------------------ generation
@@ -686,7 +830,7 @@ class C15:
     def gen_z(self, rng, tier):
         cases = []
 
-        def one(kd, cells, exact_s=None):
+        def one(kd, cells, exact_s=None, tags=()):
             n = len(cells)
             cols = [(kd, cells)]
             for k in rng.sample(KINDS, rng.randint(0, 2)):
@@ -697,7 +841,80 @@ class C15:
             inp = {'op': 'z', 'tab': tab, 'col': names[idx]}
             if exact_s is not None:
                 inp['exact_s'] = [exact_s.numerator, exact_s.denominator]
+            if tags:
+                inp['tags'] = list(tags)
             cases.append(self.rerun(inp))
+
+        def junked(kd, nums):
+            cells = list(nums)
+            junk = {'KMixed': ['x', None, NAN, INF, '', 'é'] + ([-INF] if INCLUDE_PENDING_FINDINGS else []),
+                    'KFloat': [NAN], 'KInt': []}[kd]
+            for _j in range(rng.randint(0, 3) if junk and rng.random() < 0.7 else 0):
+                cells.insert(rng.randrange(len(cells) + 1), rng.choice(junk))
+            return cells
+
+        def as_cells(kd, xs):
+            """ints where the kind wants them; a MixedColumn gets a mixture of int and float objects"""
+            if kd == 'KInt':
+                return [int(x) for x in xs]
+            if kd == 'KMixed':
+                return [int(x) if float(x) == int(x) and rng.random() < 0.6 else float(x) for x in xs]
+            return [float(x) for x in xs]
+
+        # large offset, small spread: the mean is huge relative to the standard deviation (max|x|/std up to ~1e13).
+        # Everyday data of this shape: ids / counters 1e8+k, millisecond timestamps, prices with cents, values
+        # around +-2^40 and +-2^52.  Judged with the conditioning-dependent tolerance of z_tolerance().
+        bases_int = [100000000, 1600000000000, 1700000000123, 2 ** 40, -2 ** 40, 2 ** 40 + 12345, 987654321012,
+                     -314159265358, 2 ** 31 - 2, -(2 ** 33) - 7, 10 ** 15 + 3]
+        bases_frac = [123456789.25, 1700000000123.5, -98765432.125, 2.0 ** 40 + 0.375, -(2.0 ** 40) - 0.5, 1e8 + 0.1]
+        delta_sets = [[0, 1, 2, 3], [0, 250, 500, 1000, 1250], [0, 1], [-1, 0, 0, 1], [0, 0, 0, 7], [3, 1, 4, 1, 5, 9, 2, 6]]
+        for _ in range(130 if tier == 'quick' else 2500):
+            kd = rng.choice(['KMixed', 'KMixed', 'KFloat', 'KInt'])
+            while True:
+                if kd != 'KInt' and rng.random() < 0.4:
+                    b = rng.choice(bases_frac)
+                    n = rng.randint(2, 8)
+                    ds = rng.choice([[rng.randint(-40, 40) / 4.0 for _i in range(n)],
+                                     [rng.uniform(-3, 3) for _i in range(n)],
+                                     [float(d) for d in rng.choice(delta_sets)]])
+                else:
+                    b = rng.choice(bases_int)
+                    n = rng.randint(2, 8)
+                    ds = rng.choice([list(rng.choice(delta_sets)), [rng.randint(-50, 50) for _i in range(n)],
+                                     [rng.randint(0, 3) for _i in range(n)]])
+                    if kd != 'KInt' and rng.random() < 0.3:
+                        ds = [d + rng.choice([0, 0.5, 0.25, rng.uniform(0, 1)]) for d in ds]
+                xs = [b + d for d in ds]
+                if len(set(float(x) for x in xs)) >= 2:
+                    break
+            rng.shuffle(xs)
+            one(kd, junked(kd, as_cells(kd, xs)), tags=['z:large-offset'])
+        # around +-2^52 (doubles are 1 apart): wide spreads are judged numerically, unit spreads are beyond what a
+        # double mean can resolve (tolerance >= 0.5: judged for shape / exceptions / monotonicity only)
+        for _ in range(24 if tier == 'quick' else 300):
+            kd = rng.choice(['KMixed', 'KMixed', 'KFloat', 'KInt'])
+            b = rng.choice([2 ** 52, -2 ** 52, 2 ** 52 - 4096, -(2 ** 52) + 99, 2 ** 51 + 1])
+            step = rng.choice([1, 1, 2 ** 12, 2 ** 20, 2 ** 30, 1000003])
+            while True:
+                xs = [b - abs(rng.randint(0, 40)) * step * (1 if b > 0 else -1) for _i in range(rng.randint(2, 7))]
+                if len(set(xs)) >= 2:
+                    break
+            one(kd, junked(kd, as_cells(kd, xs)), tags=['z:near-2^52'])
+        # mixed signs (large magnitudes, mean near 0) and one outlier next to a tight cluster
+        for _ in range(40 if tier == 'quick' else 500):
+            kd = rng.choice(['KMixed', 'KMixed', 'KFloat', 'KInt'])
+            b = rng.choice(bases_int[:8])
+            n = rng.randint(2, 7)
+            if rng.random() < 0.5:
+                xs = [rng.choice([b, -b]) + rng.randint(-5, 5) for _i in range(n)]
+                tg = 'z:mixed-signs'
+            else:
+                xs = [b + rng.randint(0, 3) for _i in range(n)] + [rng.choice([0, 5, -b, b * 1000, b + 10 ** 6, -7.5 if kd != 'KInt' else -7])]
+                tg = 'z:one-outlier'
+            if len(set(float(x) for x in xs)) < 2:
+                continue
+            rng.shuffle(xs)
+            one(kd, junked(kd, as_cells(kd, xs)), tags=[tg])
         for _ in range(150 if tier == 'quick' else 2500):
             kd = rng.choice(['KFloat', 'KMixed', 'KInt'])
             n = rng.randint(2, 8)
@@ -722,11 +939,44 @@ class C15:
             if kd == 'KMixed' and rng.random() < 0.5:
                 cells.insert(rng.randrange(len(cells) + 1), rng.choice(['x', None]))
             one(kd, cells, Fraction(d))
+        # the same families around a large centre a: every intermediate of the two-pass computation (3a or 5a, the
+        # mean a, the deviations 0 / +-d, d^2, the root d) is a double, so the scores must be exactly -1, 0, 1;
+        # the squares of the cells themselves (needed by a single-pass formula) are not
+        big_int = [100000000, 1600000000000, 1700000000123, 2 ** 40, -2 ** 40, 2 ** 40 - 3, 2 ** 50 - 5, -(2 ** 50) + 7,
+                   987654321012, -314159265358]
+        big_frac = [123456789.25, 1700000000123.5, -98765432.125, 2.0 ** 40 + 0.375]
+        for _ in range(45 if tier == 'quick' else 500):
+            kd = rng.choice(['KFloat', 'KMixed', 'KMixed', 'KInt'])
+            if kd != 'KInt' and rng.random() < 0.4:
+                a, d = rng.choice(big_frac), rng.choice([1, 2, 4, 0.5, 0.25, 8, 1024])
+            else:
+                a, d = rng.choice(big_int), rng.choice([1, 2, 4, 8, 64, 4096])
+                if kd != 'KInt' and abs(a) < 2 ** 45 and rng.random() < 0.3:
+                    d = rng.choice([0.5, 0.25])
+            cells = rng.choice([[a - d, a, a + d], [a - d, a - d, a, a + d, a + d]])
+            rng.shuffle(cells)
+            cells = as_cells(kd, cells)
+            if kd == 'KMixed' and rng.random() < 0.5:
+                cells.insert(rng.randrange(len(cells) + 1), rng.choice(['x', None, NAN]))
+            elif kd == 'KFloat' and rng.random() < 0.3:
+                cells.insert(rng.randrange(len(cells) + 1), NAN)
+            one(kd, cells, Fraction(d), tags=['z:large-offset'])
         return [c for c in cases if c is not None]
+
+    def gen_pending(self, rng, tier):
+        """cases on which the UNCHANGED tree departs from a strict reading of the property (see INCLUDE_PENDING_FINDINGS);
+        the NaN-key / non-number-key / -inf cases ride in gen_replace / gen_z and are switched by the same constant"""
+        cases = []
+        if not INCLUDE_PENDING_FINDINGS:
+            return cases
+        for ws in ([1, 2], [0], [2, 0, 1]):
+            cases.append(self.rerun({'op': 'weight_series', 'weights': ws, 'depth': rng.randint(1, 3)}))
+        return cases
 
     def generate(self, rng, tier):
         cases = []
-        for g in (self.gen_weight, self.gen_fullfact, self.gen_ff, self.gen_replace, self.gen_keep, self.gen_z):
+        for g in (self.gen_weight, self.gen_fullfact, self.gen_ff, self.gen_replace, self.gen_keep, self.gen_z,
+                  self.gen_pending):
             cases.extend(g(rng, tier))
         return cases
 
@@ -740,6 +990,8 @@ class C15:
                     yield {'op': op, 'levels': lv[:i] + lv[i + 1:]}
                 if lv[i] > 1:
                     yield {'op': op, 'levels': lv[:i] + [lv[i] - 1] + lv[i + 1:]}
+            return
+        if op == 'weight_series':
             return
         tab = inp['tab']
         needed = {inp.get('wname'), inp.get('col')} | {list(a.values())[0] for a in inp.get('args', [])} \
@@ -783,6 +1035,8 @@ class C15:
         i = case['input']
         if i['op'] == 'fullfact':
             return '_fullfact levels=%s' % (i['levels'],)
+        if i['op'] == 'weight_series':
+            return 'weight with SeriesColumn %s' % _compact(i)
         t = i['tab']
         extra = {k: v for k, v in i.items() if k not in ('op', 'tab', 'tags')}
         return '%s %s table=%s' % (i['op'], _compact(extra), _compact(t))
